@@ -235,6 +235,9 @@ class VisualCircuitDescription:
             # Ignore highlight if repetition number is 1
             if composite_operation.nr_of_repetitions == 1:
                 continue
+            # Ignore highlight if there is nothing to highlight (empty sub-circuit occupies no channels)
+            if len(composite_operation.channel_identifiers) == 0:
+                continue
 
             result.append(factory.construct(
                 operation=composite_operation,
